@@ -259,6 +259,13 @@ char *sasl_digest_md5(xmpp_ctx_t *ctx,
         return NULL;
     }
 
+    /* the nonce is mandatory (RFC 2831, 2.1.1) */
+    if (hash_get(table, "nonce") == NULL) {
+        strophe_error(ctx, "SASL", "digest challenge without nonce");
+        hash_release(table);
+        return NULL;
+    }
+
     node = xmpp_jid_node(ctx, jid);
     domain = xmpp_jid_domain(ctx, jid);
 
